@@ -46,6 +46,7 @@ type Verifier struct {
 	errors          []string
 	stdlibDir       string
 	splitValue      string
+	group           string
 }
 
 func (V *Verifier) globalID(name string) int {
@@ -197,6 +198,35 @@ func (V *Verifier) newFuncCtx(fi *FuncInfo, fct *FuncContract) *FuncCtx {
 }
 
 func (V *Verifier) verifyFunc(fi *FuncInfo, fct *FuncContract) (res *FuncResult) {
+	if tags := contractTags(fct); len(tags) > 0 && V.group == "" {
+		// proof groups: the function is verified once per group; clauses of other groups are left out,
+		// untagged clauses take part in every group
+		all := &FuncResult{Name: fi.Pkg.Name + "." + fi.Key}
+		am := map[string]bool{}
+		for _, tg := range tags {
+			V.group = tg
+			r := V.verifyFunc(fi, filterContract(fct, tg))
+			V.group = ""
+			if r.Err != "" {
+				all.Err = r.Err
+				return all
+			}
+			for _, ob := range r.Obls {
+				ob.Name += "{" + tg + "}"
+			}
+			all.Obls = append(all.Obls, r.Obls...)
+			all.Paths += r.Paths
+			for _, a := range r.Assumptions {
+				am[a] = true
+			}
+			all.Inlined, all.Callees, all.WeakFrames = r.Inlined, r.Callees, r.WeakFrames
+		}
+		for a := range am {
+			all.Assumptions = append(all.Assumptions, a)
+		}
+		sort.Strings(all.Assumptions)
+		return all
+	}
 	if fct.Split == nil {
 		return V.verifyFuncMode(fi, fct, 0)
 	}
@@ -279,11 +309,23 @@ func (V *Verifier) verifyFuncMode(fi *FuncInfo, fct *FuncContract, ceUnroll int)
 			fc.addInputs(id.Name, v)
 		}
 	}
+	if fct.InstFunc != nil {
+		// instantiated contract f@g: unify the function-typed parameter with g's signature to learn the type arguments
+		for _, p := range paramObjs(info, fi.Decl.Type) {
+			if p != nil && p.Name() == fct.InstParam {
+				st.tsub = map[string]types.Type{}
+				unifyTypes(p.Type(), fct.InstFunc.Type(), st.tsub)
+			}
+		}
+	}
 	for _, p := range paramObjs(info, fi.Decl.Type) {
 		if p == nil {
 			continue
 		}
-		v := st.freshVal(p.Name(), p.Type())
+		v := st.freshVal(p.Name(), st.subst(p.Type()))
+		if fct.InstParam == p.Name() && fct.InstFunc != nil {
+			v = Val{K: KFunc, T: fct.InstFunc.Type(), Obj: fct.InstFunc}
+		}
 		st.vars[p] = v
 		fc.addInputs(p.Name(), v)
 		if ceUnroll > 0 && (v.K == KSlice || v.K == KString) {
@@ -342,6 +384,9 @@ func (V *Verifier) verifyFuncMode(fi *FuncInfo, fct *FuncContract, ceUnroll int)
 				st.facts = st.facts.push(env.evalBool(inv.Expr))
 			}
 		}
+	}
+	for _, gp := range fct.GhostParams {
+		st.ghost[gp] = vInt(fc.fresh("gp_"+gp, "Int"), intType)
 	}
 	st.lockEntry(fct)
 	fc.entrySnap = st.snapshot(nil)
@@ -535,6 +580,19 @@ func (V *Verifier) checkExit(fc *FuncCtx, s *State, vals []Val, fi *FuncInfo, is
 	// frame: everything outside the modifies footprint is unchanged
 	env := fc.newSpecEnv(s, names, fc.entrySnap, fi.Decl.Body.Lbrace+1, fc.Name+"/modifies").inOld()
 	fp := s.footprints(env, fct.Modifies)
+	otherGroup := map[string]bool{}
+	if fct.Full != nil {
+		// heaps whose footprint is declared by a modifies clause of another proof group are framed in that group only
+		var other []*Clause
+		for _, m := range fct.Full.Modifies {
+			if m.Tag != "" && m.Tag != V.group {
+				other = append(other, m)
+			}
+		}
+		for n := range s.footprints(env, other) {
+			otherGroup[n] = true
+		}
+	}
 	var hn []string
 	for n := range s.heap {
 		hn = append(hn, n)
@@ -543,7 +601,7 @@ func (V *Verifier) checkExit(fc *FuncCtx, s *State, vals []Val, fi *FuncInfo, is
 	for _, n := range hn {
 		cur := s.heap[n]
 		init := "H_" + sanitize(n) + "_0"
-		if cur == init {
+		if cur == init || otherGroup[n] {
 			continue
 		}
 		srt := fc.heapSorts[n]
@@ -553,6 +611,8 @@ func (V *Verifier) checkExit(fc *FuncCtx, s *State, vals []Val, fi *FuncInfo, is
 			for _, t := range h.targets {
 				if two {
 					in = append(in, sAnd(sEq("g_a", t.arr), sCmp("<=", t.lo, "g_i"), sCmp("<", "g_i", t.hi)))
+				} else if t.cond != "" {
+					in = append(in, t.cond)
 				} else {
 					in = append(in, sEq("g_a", t.ref))
 				}
@@ -1035,4 +1095,110 @@ func (fc *FuncCtx) isLocalName(name string) bool {
 func fileExists(p string) bool {
 	_, err := os.Stat(p)
 	return err == nil
+}
+
+// funcInfoForContract resolves "f@g" contract keys to function f and binds the instantiated parameter.
+func (V *Verifier) funcInfoForContract(pkg, key string, fct *FuncContract) *FuncInfo {
+	base := key
+	if k := strings.Index(key, "@"); k >= 0 {
+		base = key[:k]
+	}
+	fi := V.funcsByKey[pkg+"."+base]
+	if fi == nil {
+		return nil
+	}
+	if fct != nil && fct.InstName != "" && fct.InstFunc == nil {
+		if g := V.funcsByKey[pkg+"."+fct.InstName]; g != nil {
+			fct.InstFunc = g.Obj
+		}
+	}
+	if base != key {
+		// a distinct FuncInfo so that obligation names carry the instantiation
+		c := *fi
+		c.Key = key
+		return &c
+	}
+	return fi
+}
+
+func contractTags(fct *FuncContract) []string {
+	m := map[string]bool{}
+	add := func(cs []*Clause) {
+		for _, c := range cs {
+			if c.Tag != "" {
+				m[c.Tag] = true
+			}
+		}
+	}
+	add(fct.Requires)
+	add(fct.Ensures)
+	add(fct.Ghosts)
+	add(fct.Modifies)
+	for _, l := range fct.Loops {
+		add(l.Invariants)
+	}
+	for _, a := range fct.Anchors {
+		add(a.Clauses)
+	}
+	var out []string
+	for k := range m {
+		out = append(out, k)
+	}
+	sort.Strings(out)
+	return out
+}
+
+// filterContract keeps the untagged clauses and those of one group.
+func filterContract(fct *FuncContract, tag string) *FuncContract {
+	keep := func(cs []*Clause) []*Clause {
+		var out []*Clause
+		for _, c := range cs {
+			if c.Tag == "" || c.Tag == tag {
+				out = append(out, c)
+			}
+		}
+		return out
+	}
+	c := *fct
+	c.Full = fct
+	c.Modifies = keep(fct.Modifies)
+	c.Requires, c.Ensures, c.Ghosts = keep(fct.Requires), keep(fct.Ensures), keep(fct.Ghosts)
+	c.Loops = map[int]*LoopSpec{}
+	for k, l := range fct.Loops {
+		lc := *l
+		lc.Invariants = keep(l.Invariants)
+		c.Loops[k] = &lc
+	}
+	c.Anchors = map[string]*AnchorSpec{}
+	for k, a := range fct.Anchors {
+		c.Anchors[k] = &AnchorSpec{Anchor: a.Anchor, Clauses: keep(a.Clauses)}
+	}
+	return &c
+}
+
+// unifyTypes binds type parameters occurring in pattern p to the corresponding parts of a.
+func unifyTypes(p, a types.Type, sub map[string]types.Type) {
+	if a == nil {
+		return
+	}
+	switch x := p.(type) {
+	case *types.TypeParam:
+		if _, isTP := a.(*types.TypeParam); !isTP || x.Obj().Name() != a.(*types.TypeParam).Obj().Name() {
+			sub[x.Obj().Name()] = a
+		}
+	case *types.Slice:
+		if y, ok := a.Underlying().(*types.Slice); ok {
+			unifyTypes(x.Elem(), y.Elem(), sub)
+		}
+	case *types.Pointer:
+		if y, ok := a.Underlying().(*types.Pointer); ok {
+			unifyTypes(x.Elem(), y.Elem(), sub)
+		}
+	case *types.Signature:
+		if y, ok := a.Underlying().(*types.Signature); ok {
+			for i := 0; i < x.Params().Len() && i < y.Params().Len(); i++ {
+				unifyTypes(x.Params().At(i).Type(), y.Params().At(i).Type(), sub)
+			}
+		}
+	}
 }
